@@ -5,6 +5,7 @@ translation returns what `bundleValidate` (Tree.lean - the container check the r
 and the builds run before `Bundle.build`) returns: the same verdict and the same error member.
 -/
 import IclModel.Gen.ValidateT
+import IclModel.Build
 namespace Icl.ValidateEq
 open Icl
 
@@ -85,5 +86,26 @@ theorem bundleValidate_eq_model (b : Bundle Vals) : Gen.V.Validate b = bundleVal
   simp only [len_le_zero, len_gt_zero]
   cases b.checks.isEmpty <;> cases b.returns.isEmpty <;> simp <;>
     (first | rfl | (cases List.findSome? _ _ <;> rfl))
+
+/-- **`CashLetter.Validate` as translated from cashLetter.go is the model's container check**, for every cash letter -/
+theorem cashLetterValidate_eq_model (m : Model) (cl : CashLetter Vals) :
+    Gen.V.cashLetterValidate m cl = cashLetterValidate m cl := by
+  unfold Gen.V.cashLetterValidate cashLetterValidate
+  cases hh : cl.header with
+  | none => rfl
+  | some h =>
+    simp only [Option.isNone_some, Bool.false_eq_true, if_false, Option.map_some, Option.getD_some]
+    by_cases h1 : (h.s "RecordTypeIndicator" == [0x4E]) = true <;>
+      by_cases h2 : cl.bundles.isEmpty = true <;>
+      by_cases h3 : ([[0x30, 0x30], [0x30, 0x31], [0x30, 0x32]].contains (h.s "CollectionTypeIndicator")) = true <;>
+      by_cases h4 : cl.rns.isEmpty = true <;>
+      simp only [h1, h2, h3, h4, Bool.not_true, Bool.not_false, Bool.and_true, Bool.and_false, Bool.true_and, Bool.false_and,
+        Bool.false_eq_true, if_true, if_false, Bool.not_eq_true] <;>
+      (cases hc : cl.control with
+       | none => simp [BuildRT.vOpt]
+       | some c =>
+         simp only [Option.isNone_some, Bool.false_eq_true, if_false, BuildRT.vOpt, vErr]
+         cases hv : m.validateK Kind.cashLetterControl c with
+         | mk o v' => cases o <;> simp)
 
 end Icl.ValidateEq
